@@ -63,6 +63,7 @@ var otherCmds = []string{
 	"CREATE a/", "CREATE /a", "CREATE \"", "DELETE", "DELETE \"\"", "DELETE INBOX", "SUBSCRIBE", "UNSUBSCRIBE", "SUBSCRIBE \"", "SELECT", "SELECT \"\"", "SELECT \"", "EXAMINE", "SELECT INBOX extra",
 	"APPEND", "APPEND INBOX", "APPEND INBOX {", "APPEND INBOX {}", "APPEND INBOX {-1}", "APPEND INBOX {0}", "APPEND INBOX {99999999999999999999}", "APPEND INBOX {999999999999}", "APPEND INBOX }{",
 	"APPEND INBOX (\\Seen {3}", "APPEND INBOX {x}", "APPEND INBOX (\\Seen) \"bad date\" {3}", "APPEND \"\" {3}", "APPEND nosuch {3}",
+	"FETCH 50000000:1 FLAGS", "UID FETCH 50000000:1 FLAGS", "STORE 50000000:1 +FLAGS (\\Seen)", "COPY 50000000:1 INBOX", "FETCH 1:50000000 FLAGS", "SEARCH 50000000:1", "FETCH 1,50000000:2 FLAGS",
 	"FETCH", "FETCH $N", "FETCH x FLAGS", "FETCH 0 FLAGS", "FETCH : FLAGS", "FETCH 1:99999999999999999999 FLAGS", "FETCH -1 FLAGS", "FETCH 1,,2 FLAGS", "FETCH * FLAGS", "FETCH *:* FLAGS", "FETCH 2:1 FLAGS",
 	"SEARCH", "EXPUNGE extra", "CLOSE extra", "CHECK", "NOOP x", "IDLE x", "CAPABILITY x", "NAMESPACE", "ID NIL", "ID (", "ENABLE", "UNSELECT", "STARTTLS", "LOGOUT x",
 	"AUTHENTICATE", "AUTHENTICATE PLAIN", "AUTHENTICATE PLAIN =", "AUTHENTICATE PLAIN AA==", "AUTHENTICATE FOO", "LOGIN", "LOGIN a", "LOGIN \"a", "LOGIN {5}", "LOGIN a b c",
@@ -85,6 +86,14 @@ var lmtpScripts = []string{
 	"\x00\x00\r\n", "LHLO \xff\xfe\r\n", "lhlo x\r\nmail from:<a@b>\r\nrcpt to:<u@example.com>\r\ndata\r\nx\r\n.\r\nquit\r\n", "LHLO x\r\nMAIL FROM:<a@b>\r\nRCPT TO:<u@example.com>\r\nDATA\r\nContent-Type: text/plain; charset=\"\r\nContent-Transfer-Encoding: base64\r\n\r\n####\r\n.\r\n",
 	"LHLO x\r\nMAIL FROM:<a@b>\r\nRCPT TO:<İ@example.com>\r\nRCPT TO:<ɐ@EXAMPLE.COM>\r\nDATA\r\nx\r\n.\r\n", "LHLO x\r\nMAIL FROM:<a@b>\r\nRCPT TO:<u+tag@example.com>\r\nRCPT TO:<\"quoted\"@example.com>\r\nDATA\r\nx\r\n.\r\n",
 	"LHLO x\r\nMAIL FROM:<a@b>\r\nRCPT TO:<u@example.com>\r\nDATA\r\nReceived: x\r\n\tfolded\r\n folded\r\nSubject:\r\n\r\n\r\n.\r\n", "LHLO x\r\nMAIL FROM:<a@b>\r\nRCPT TO:<u@example.com>\r\nDATA\r\n--b\r\nContent-Type: multipart/mixed; boundary=b\r\n\r\n--b--\r\n.\r\n",
+}
+
+func init() {
+	// truncated multiparts: a boundary parameter, delimiters, and no closing delimiter
+	for _, body := range []string{"--b\r\nContent-Type: text/plain\r\n\r\nfirst part and then the message just ends\r\n", "--b\r\n\r\nx\r\n--b\r\nContent-Type: multipart/mixed; boundary=c\r\n\r\n--c\r\n\r\ninner never closed\r\n", "preamble only, the boundary never occurs\r\n"} {
+		lmtpScripts = append(lmtpScripts, "LHLO x\r\nMAIL FROM:<a@b>\r\nRCPT TO:<u@example.com>\r\nDATA\r\nFrom: a@b\r\nTo: u@example.com\r\nSubject: truncated\r\nMIME-Version: 1.0\r\nContent-Type: multipart/mixed; boundary=b\r\n\r\n"+body+".\r\n")
+		bodies = append(bodies, body)
+	}
 }
 
 var saslLines = []string{
@@ -224,6 +233,10 @@ func generate(rng *hx.Rng, thorough bool) []kase {
 		}
 		_ = i
 	}
+	for _, body := range []string{"--b\r\nContent-Type: text/plain\r\n\r\nfirst part and then the message just ends\r\n", "--b\r\n\r\nx\r\n--b\r\nContent-Type: multipart/mixed; boundary=c\r\n\r\n--c\r\n\r\ninner never closed\r\n"} {
+		out = append(out, kase{kind: "imap", msg: "From: a@example.org\r\nTo: u@example.com\r\nSubject: truncated\r\nMIME-Version: 1.0\r\nContent-Type: multipart/mixed; boundary=b\r\n\r\n" + body, cmds: []string{"FETCH $N BODY[]", "FETCH $N BODYSTRUCTURE"}, class: "truncated-multipart"})
+	}
+	out = append(out, kase{kind: "imap", msg: "From: a@example.org\r\nSubject: s\r\n\r\nranges\r\n", cmds: []string{"FETCH 50000000:1 FLAGS", "STORE 50000000:1 +FLAGS (\\Seen)", "COPY 50000000:1 INBOX", "UID FETCH 50000000:1 FLAGS", "FETCH 1:50000000 FLAGS"}, class: "huge-range"})
 	for _, a := range addrValues {
 		out = append(out, kase{kind: "imap", msg: "From: " + a + "\r\nSubject: s\r\n\r\nx\r\n", cmds: []string{"FETCH $N ENVELOPE"}, class: "odd-address"})
 	}
